@@ -3,7 +3,7 @@
 (* Bounded configurations of Engine.tla: the menus the environment chooses *)
 (* from, and the REPLAY emission for the harness.                          *)
 (***************************************************************************)
-EXTENDS Engine, Json
+EXTENDS Engine, Universe, Json
 
 A == TextV(<<97>>)
 B == TextV(<<98>>)
@@ -123,6 +123,19 @@ JoinMenu == {
   Agg(<<KeyK, CountStar>>, <<K>>, NoE, NoH, FALSE, NoLimit, "outer"),
   Agg(<<ItE("key", W, "w"), ItE("min", V, "lo"), CountStar>>, <<W>>, NoE, NoH, FALSE, NoLimit, "inner")
 }
+
+\* C16: every consumer of the value order on every pair of same-kind values of the boundary universe
+Renderable(x) == ~IsNull(x) /\ (x.t = "arr" => (x.xs # <<>> /\ \E i \in 1..Len(x.xs) : ~IsNull(x.xs[i])))
+Pairs == {p \in U \X U : TypeRank(p[1]) = TypeRank(p[2]) /\ Renderable(p[1]) /\ Renderable(p[2]) /\ (p[1].t = "arr" => p[1].et = p[2].et)}
+Pick(x, y) == CaseE(<<<<CmpE("=", V, One), Lit(x)>>>>, Lit(y))
+PairMenu ==
+  {Sel(<<P(CmpE("=", Lit(p[1]), Lit(p[2])), "eq"), P(CmpE("<", Lit(p[1]), Lit(p[2])), "lt"), P(CmpE(">=", Lit(p[1]), Lit(p[2])), "ge"),
+         P(CmpE("!=", Lit(p[1]), Lit(p[2])), "ne")>>, NoE, FALSE, NoLimit, "none") : p \in Pairs}
+  \cup {Sel(<<P(Pick(p[1], p[2]), "x")>>, NoE, TRUE, NoLimit, "none") : p \in Pairs}
+  \cup {Agg(<<ItE("key", Pick(p[1], p[2]), "x"), CountStar>>, <<Pick(p[1], p[2])>>, NoE, NoH, FALSE, NoLimit, "none") : p \in Pairs}
+  \cup {Agg(<<ItE("min", Pick(p[1], p[2]), "lo"), ItE("max", Pick(p[1], p[2]), "hi")>>, <<>>, NoE, NoH, FALSE, NoLimit, "none") : p \in Pairs}
+  \cup {Sel(<<P(Call("array_unique", <<Call("array", <<Lit(p[1]), Lit(p[2]), Lit(p[1])>>)>>), "u")>>, NoE, FALSE, NoLimit, "none") : p \in {x \in Pairs : x[1].t # "arr"}}
+LinesPair == {KV(A, IntV(1)), KV(A, IntV(2))}
 
 \* ---- input menus ----------------------------------------------------------
 Lines4 == {KV(A, IntV(1)), KV(A, IntV(2)), KV(B, IntV(1)), KV(Null, IntV(1)), KV(A, Null), KV(Null, Null), Garbage}
